@@ -213,10 +213,11 @@ Example C01_program_nonvacuous :
             SIf (RCall "sq" [RLit (LInt 0)]) (SPrintln (Some (RLit (LInt 1)))) None;
             SAssign "w" (RLit (LInt 0));
             SRepeat (LWhile (RExpr (EBin BLt (ECall "sq" [RVar "w"]) (ELit (LInt 5))))) (SBlock [SAssign "w" (RExpr (EBin BAdd (EVar "w") (ELit (LInt 1)))); SPrintln (Some (RVar "w"))]);
+            SSet (OpList [Zone (NStr "strip") (RLit (LInt 1)) (Some (RVar "total")); Target TLight (NStr "a"); Zone (NVar "x") (RExpr (EBin BSub (EVar "total") (ELit (LInt 3)))) None]);
             SAssign "r" (RCall "round" [RVar "total"]); SPrintln (Some (RCall "floor" [RExpr (EBin BDiv (EVar "total") (ELit (LInt 2)))]));
             SReg R_HUE (RCall "sq" [RVar "total"]); SPrint (Some (RCall "sq" [RExpr (EBin BSub (EVar "total") (ELit (LInt 7)))]));
             SPrintln (Some (RVar "total"))] in
-  let w := [mkLight "a" "g" "l" KPlain [0; 0; 0; 0]; mkLight "" "g" "m" KPlain [0; 0; 0; 0]; mkLight "c" "" "l" KPlain [0; 0; 0; 0]; mkLight "b" "h" "l" KPlain [0; 0; 0; 0]] in
+  let w := [mkLight "a" "g" "l" KPlain [0; 0; 0; 0]; mkLight "" "g" "m" KPlain [0; 0; 0; 0]; mkLight "c" "" "l" KPlain [0; 0; 0; 0]; mkLight "b" "h" "l" KPlain [0; 0; 0; 0]; mkLight "strip" "h" "m" (KMulti 8) [0; 0; 0; 0]] in
   Forall (top_stmt_ok (fst (collect p [] [])) (snd (collect p [] []))) p /\ NoDup (map fst (defs_of p)) /\
   exists evs, run_src 400 p w = SFinished evs /\ (12 <= length evs)%nat.
 Proof.
